@@ -13,20 +13,35 @@ Import ListNotations.
 From Omega Require Import L4.Arena L4.Tables.
 From OmegaGen Require Import FixpointGen Gr1Gen.
 '''
+# when gen/TrivialGen.v was regenerated and compiled by this run's prove()
+HEADER_TRIVIAL = HEADER.replace('FixpointGen Gr1Gen.',
+                                'FixpointGen Gr1Gen TrivialGen.')
 
 
 def prove(ctx):
     with ctx.coq_lock():
-        gen_games.ensure_gr1(ctx)
+        # gen/Gr1Gen.v (solvers) and gen/TrivialGen.v (trivial_winning_set:
+        # the construction of the environment's Rabin(1) automaton, read with
+        # tools/py2coq_trivial.py); GenProofs/TrivialBridge.v re-proves the
+        # latter equal to the model GenProofs/TrivialSet.v
+        gen_games.ensure_trivial(ctx)
+        ctx.trivial_gen_ok = True
         ctx.prove_with_deps('Properties/C04.v')
     ctx.trusted.append(
         'translator tie T: omega/games/gr1.py (solve_rabin_game, '
         '_cycle_inside, _attractor_inside, solve_streett_game, '
         '_attractor_under_assumptions), fixpoint.py (step, trap)')
+    ctx.trusted.append(
+        'translator tie T (tools/py2coq_trivial.py): gr1.trivial_winning_set '
+        'statement by statement, defaults of temporal.default_rabin_automaton'
+        '; "the same BDD read by the automaton with swapped variable lists" '
+        'is modelled as re-indexing through swapV')
     ctx.assumptions.append(
         'C04_region_is_winning_region / C04_outside_environment_wins '
         '(strategies over infinite plays) depend on the standard-library '
-        'axiom Classical_Prop.classic')
+        'axiom Classical_Prop.classic; so do C04_trivial_set_spec / '
+        'C04_trivial_set_spec_dual (through the two exactness theorems); '
+        'C04_trivial_translated_is_model and C04_trivial_set_mu are closed')
 
 
 def run_rabin(g):
@@ -106,7 +121,21 @@ def duality_real(g):
     return bad
 
 
-def trivial_real(g):
+def run_trivial(g):
+    """Truth tables of gr1.trivial_winning_set(aut)[0] in the four modes."""
+    import omega.games.gr1 as gr1
+    ar = g['ar']
+    out = {}
+    for moore, plus_one in MODES:
+        aut = gr1games.load(g)
+        aut.moore, aut.plus_one = moore, plus_one
+        triv, aut2 = gr1.trivial_winning_set(aut)
+        assert aut2 is aut, 'second component is not the argument'
+        out[(moore, plus_one)] = ar.table1(triv)
+    return out
+
+
+def trivial_real(g, real=None):
     """gr1.trivial_winning_set against its reading in explicit sets: the
     Streett(1) region of g (in g's own mode) minus the Rabin(1) region, in
     the default Rabin mode of temporal.default_rabin_automaton (Moore,
@@ -121,14 +150,13 @@ def trivial_real(g):
     exd = gr1games.Explicit(d)
     w = exd.table(exd.rabin(True, True))
     ex = gr1games.Explicit(g)
-    for moore, plus_one in MODES:
-        aut = gr1games.load(g)
-        aut.moore, aut.plus_one = moore, plus_one
+    if real is None:
         try:
-            triv, _ = gr1.trivial_winning_set(aut)
+            real = run_trivial(g)
         except Exception as e:
-            return dict(mode=(moore, plus_one), raised=repr(e))
-        got = ar.table1(triv)
+            return dict(raised=repr(e))
+    for moore, plus_one in MODES:
+        got = real[(moore, plus_one)]
         z = ex.table(ex.streett(moore, plus_one))
         for (c, x, y) in ar.states():
             exp = z[ar.sidx(c, x, y)] and not w[dar.sidx(c, y, x)]
@@ -158,7 +186,7 @@ def run_reused(g, moore, plus_one):
     return d, ztab
 
 
-def coq_group(i, g, impl):
+def coq_group(i, g, impl, triv=None):
     ar = g['ar']
     n = f'{ar.nc} {ar.nx} {ar.ny}'
     fuel = ar.ns * ar.np + 2
@@ -184,6 +212,15 @@ def coq_group(i, g, impl):
         terms.append(f'eq1 (tt1 {dn} (last (fst (fst ({call}))) bfalse)) '
                      f'{games.litn(ztab)}')
         keys.append(('reused-after-role-swap', moore, plus_one))
+    # the function translated from the current trivial_winning_set, evaluated
+    # on the game's tables, against what the real one returned
+    for (moore, plus_one), tab in (triv or {}).items():
+        ie = f'{p}EI' if 'EI' in g else 'btrue'
+        is_ = f'{p}SI' if 'SI' in g else 'btrue'
+        call = (f'TrivialGen.trivial_winning_set {n} {p}E {p}S {ie} {is_} '
+                f'{p}P {p}R {b(moore)} {b(plus_one)} {fuel}')
+        terms.append(f'eq1 (tt1 {n} ({call})) {games.litn(tab)}')
+        keys.append(('trivial_winning_set', moore, plus_one))
     return (defs, terms), keys
 
 
@@ -234,7 +271,9 @@ def oracle_check(g, impl):
 def correspond(ctx):
     n_games = 150 if ctx.thorough else 16
     max_states = 32 if ctx.thorough else 16
-    gs, impls = [], []
+    gs, impls, trivs = [], [], []
+    triv_ok = getattr(ctx, 'trivial_gen_ok', False)
+    triv_nontrivial = 0
     trivial, hist, distinct = 0, {}, set()
     dual_checked = 0
     mism = []
@@ -251,7 +290,15 @@ def correspond(ctx):
             return [Mismatch('solver raised', gr1games.case_of(g),
                              impl=repr(e), property_fails=True)]
         dual_checked += 4
-        t = trivial_real(g)
+        try:
+            real_triv = run_trivial(g)
+            t = trivial_real(g, real_triv)
+        except Exception as e:
+            real_triv, t = None, dict(raised=repr(e))
+        trivs.append(real_triv if triv_ok else None)
+        for tab in (real_triv or {}).values():
+            if any(tab) and not all(tab):
+                triv_nontrivial += 1
         if t:
             mism.append(Mismatch(
                 'gr1.trivial_winning_set differs from (Streett(1) region) '
@@ -275,12 +322,20 @@ def correspond(ctx):
                 trivial += 1
     groups, allkeys = [], []
     for i, (g, impl) in enumerate(zip(gs, impls)):
-        grp, keys = coq_group(i, g, impl)
+        grp, keys = coq_group(i, g, impl, trivs[i])
         groups.append(grp)
         allkeys += [(i, k) for k in keys]
-    res = ctx.eval_groups('corr', HEADER, groups, shard=4)
+    res = ctx.eval_groups('corr', HEADER_TRIVIAL if triv_ok else HEADER,
+                          groups, shard=4)
     for (i, k), ok in zip(allkeys, res):
-        if not ok:
+        if not ok and k[0] == 'trivial_winning_set':
+            mism.append(Mismatch(
+                'trivial_winning_set differs from the function translated '
+                'from it (gen/TrivialGen.v) evaluated on the same tables',
+                dict(gr1games.case_of(gs[i]), moore=k[-2], plus_one=k[-1],
+                     scenario='trivial_winning_set'),
+                impl=trivs[i][(k[-2], k[-1])]))
+        elif not ok:
             mism.append(Mismatch(
                 'solve_rabin_game (iterates zk, yki, xkijr) differs from the '
                 'translated model' + (' on an automaton re-used after the '
@@ -304,14 +359,20 @@ def correspond(ctx):
         'compared as truth tables over all bit-range valuations with the '
         'translated Gallina evaluated by vm_compute; plus, on the real code, '
         'complementarity of solve_streett_game(G) and solve_rabin_game(dual '
-        'G) at every valuation and mode. non-trivial = Rabin region neither '
+        'G) at every valuation and mode; plus gr1.trivial_winning_set in all '
+        '4 modes against the function translated from it (vm_compute) and '
+        'against explicit sets. non-trivial = Rabin region neither '
         'empty nor full')
     ctx.cov['samples'] = [dict(gr1games.case_of(gs[0]),
                                region={str(k): v[0][-1]
                                        for k, v in impls[0].items()})]
     ctx.extra['correspondence'] = dict(
         games=n_games, comparisons=len(res), duality_checks=dual_checked,
-        trivial_regions=trivial, states_histogram=hist, mismatches=len(mism))
+        trivial_regions=trivial, states_histogram=hist, mismatches=len(mism),
+        trivial_winning_set=dict(
+            compared_in_coq=sum(1 for _, k in allkeys
+                                if k[0] == 'trivial_winning_set'),
+            neither_empty_nor_full=triv_nontrivial))
     return mism
 
 
